@@ -476,7 +476,7 @@ def invoke : Nat → Nat → Nat → Nat → M Outcome
       return .none
     | .waitEvent w =>
       let ws ← getWait w
-      if !ws.run && (ws.evObj.isNone || ws.evObj == some e) then
+      if !ws.run && !ws.timedOut && (ws.evObj.isNone || ws.evObj == some e) then
         if !(← removeHandler ws.hEvent (some ws.evName)) then return .raised
         modEv e fun x => { x with alertDone := true }
         modWait w fun x => { x with run := true, event := some e }
@@ -484,7 +484,7 @@ def invoke : Nat → Nat → Nat → Nat → M Outcome
     | .waitDone w =>
       let ws ← getWait w
       let ev ← getEv e
-      if ws.event.isSome && ws.event == ev.parentEv then
+      if !ws.timedOut && (ws.event.isSome && ws.event == ev.parentEv) then
         modWait w fun x => { x with flag := true }
         registerTask ws.owner ⟨ws.taskEvent, ws.task, some ws.parentGen⟩
         if ws.timeout ≥ 0 then
@@ -494,7 +494,9 @@ def invoke : Nat → Nat → Nat → Nat → M Outcome
       return .none
     | .waitTick w =>
       let ws ← getWait w
+      if ws.flag || ws.timedOut then return .none
       if ws.timeout == 0 then
+        modWait w fun x => { x with timedOut := true }
         let g ← newGen (.exc w false)
         registerTask ws.owner ⟨ws.taskEvent, g, some ws.parentGen⟩
         if !(← removeHandler ws.hDone (some (ws.evName.child sfxDone))) then return .raised
